@@ -86,13 +86,16 @@ func families(thorough bool) []famSpec {
 }
 
 // variantsOf returns the node variants history number i of a family runs on.
-func variantsOf(f famSpec, i int) []nodeVariant {
+func variantsOf(f famSpec, i int, thorough bool) []nodeVariant {
 	a := vArchival
 	if i%2 == 1 {
 		a = vArchivalFlush
 	}
 	if f.Pruned {
-		return []nodeVariant{a, vGC, vLatest, vLatestGC}
+		if thorough {
+			return []nodeVariant{a, vGC, vLatest, vLatestGC}
+		}
+		return []nodeVariant{a, vGC, vLatest}
 	}
 	return []nodeVariant{a}
 }
@@ -773,7 +776,7 @@ func TestCheck(t *testing.T) {
 	depth := vk.Pick(r, 2, 3)
 	names := tplNames(r.Thorough())
 	fams := families(r.Thorough())
-	var jobs []job
+	var perFam [][]job
 	hist := 0
 	notApplicable := 0
 	for _, f := range fams {
@@ -793,11 +796,27 @@ func TestCheck(t *testing.T) {
 			total *= len(names)
 		}
 		notApplicable += total - len(hs)
+		var fj []job
 		for i, h := range hs {
 			hist++
-			for _, v := range variantsOf(f, i) {
-				jobs = append(jobs, job{sc, f, v, h})
+			for _, v := range variantsOf(f, i, r.Thorough()) {
+				fj = append(fj, job{sc, f, v, h})
 			}
+		}
+		perFam = append(perFam, fj)
+	}
+	// interleave the families so that a run stopped by the deadline has seen all of them
+	var jobs []job
+	for i := 0; ; i++ {
+		more := false
+		for _, fj := range perFam {
+			if i < len(fj) {
+				jobs = append(jobs, fj[i])
+				more = true
+			}
+		}
+		if !more {
+			break
 		}
 	}
 	r.Parallel(len(jobs), func(i int) {
